@@ -329,8 +329,18 @@ Words are separated by blanks and newlines, so the `"\n "` inserted by `_WidthLi
 writes never changes them.  This layer is executable and validated by the correspondence run (the
 model's text equals `lp.dumps`, its reading equals `lp.loads`); it is not part of the theorems. -/
 
-def words (s : String) : List String :=
-  (s.split (fun c => c = ' ' || c = '\n')).toList.map (·.toString) |>.filter (· ≠ "")
+def isWs (c : Char) : Bool := c = ' ' || c = '\n'
+
+/-- blank/newline separated words of a character list; `cur` = the current word, reversed -/
+def wordsAux : List Char → List Char → List (List Char)
+  | [], cur => if cur.isEmpty then [] else [cur.reverse]
+  | c :: cs, cur =>
+    if isWs c then (if cur.isEmpty then wordsAux cs [] else cur.reverse :: wordsAux cs [])
+    else wordsAux cs (c :: cur)
+
+def wordsL (cs : List Char) : List (List Char) := wordsAux cs []
+
+def words (s : String) : List String := (wordsL s.toList).map String.ofList
 
 def parseDigits (cs : List Char) : Option Nat :=
   if cs.isEmpty || !cs.all Char.isDigit then none else some (cs.foldl (fun n c => 10 * n + (c.toNat - 48)) 0)
